@@ -33,6 +33,8 @@ claimed = {
          "that every key typed while recording passes through RecordKeys once is the main loop (A-LOOP); Unescape/EscapeMacro named by uninterpreted functions here (their per-token behaviour is C19); 1 known finding: runes >= 0x80 are replayed as one truncated byte; ESC-timing dependence of replayed vi macros (one chunk) not covered"),
  "C05": ("DESIGN.md §4 C05", "chunk independence of the sequential key consumers through a ghost input stream whose read returns an arbitrary chunk length (uninterpreted chunklen): readInputFiltered returns exactly the next chunklen bytes; WaitAvailableKeys never loses, duplicates or reorders a byte (buf ++ unread stream is invariant) and reads nothing while keys are pending; dispatchKeys/MatchMain/MatchLocal/PopKey consume the stack in order (shared with C03); ReadKey stated against 'first unread character' (known findings)",
          "ESC timing and the cursor-position-report hand-off between goroutines are not decided (channels abstracted; extractCursorPos trusted under the hypothesis that no report is in flight); convert-meta conversion of a chunk excluded (cfg == nil); 4 known findings (ReadKey ignores buffered keys / drops the rest of its chunk; non-EOF read error busy-loops)"),
+ "C11": ("DESIGN.md §4 C11", "terminal mode only: Readline proved against ensures_always tmode() == old(tmode()) over a ghost termios: at every return and, for every call of its body that may panic (a bound command included), after the deferred calls armed at that point have run on an arbitrary heap; the saved mode cannot change in between because term.State.termios is a final field (no store outside construction anywhere in the module, checked over the SSA)",
+         "MakeRaw / Restore trusted against the ghost (two ioctls; Restore assumed to succeed, Readline ignores its error); the cursor row and the cursor style after return need a terminal emulator as oracle and are not covered (same reason as C04); a panic raised by a deferred call itself is not followed; signals / os.Exit not modelled"),
 }
 not_applicable = {
  "C04": "needs a VT100 cell-grid interpreter of the emitted byte stream as oracle; contracts on the repository's functions cannot state what a terminal shows (DESIGN.md §4 C04)",
@@ -41,7 +43,6 @@ not_applicable = {
 pending = {
  "C01": "not yet claimed: contracts for the command layer are still being written (DESIGN.md §7 build order)",
  "C10": "not yet claimed: assumed-library layer not reached yet (DESIGN.md §4 C10)",
- "C11": "not yet claimed: ghost termios / defers on the panic edge not yet built",
 }
 import os, sys
 checks = []
